@@ -19,6 +19,7 @@ import (
 	"github.com/allegro/bigcache/v3"
 	legacybucketteer "github.com/rpcpool/yellowstone-faithful/deprecated/bucketteer"
 	legacyindex "github.com/rpcpool/yellowstone-faithful/deprecated/compactindex"
+	legacyindex36 "github.com/rpcpool/yellowstone-faithful/deprecated/compactindex36"
 	hugecache "github.com/rpcpool/yellowstone-faithful/huge-cache"
 	"github.com/rpcpool/yellowstone-faithful/indexes"
 	splitcarfetcher "github.com/rpcpool/yellowstone-faithful/split-car-fetcher"
@@ -265,6 +266,71 @@ func vkBuildLegacySigExists(dir string, t *cargen.Truth) (string, error) {
 		return "", err
 	}
 	return path, w.Close()
+}
+
+// vkBuildLegacy36 writes slot-to-cid and sig-to-cid indexes in the deprecated compactindex36 format (which the
+// readers still detect and serve), with the repository's own legacy builder.
+func vkBuildLegacy36(dir string, t *cargen.Truth) (slotToCid, sigToCid string, err error) {
+	build := func(name string, n int, fill func(b *legacyindex36.Builder) error) (string, error) {
+		tmp := filepath.Join(dir, "legacy36-"+name)
+		if err := os.MkdirAll(tmp, 0o755); err != nil {
+			return "", err
+		}
+		if n == 0 {
+			n = 1
+		}
+		b, err := legacyindex36.NewBuilder(tmp, uint(n), uint64(len(t.Bytes)))
+		if err != nil {
+			return "", err
+		}
+		defer b.Close()
+		if err := fill(b); err != nil {
+			return "", err
+		}
+		path := filepath.Join(dir, "legacy36."+name+".index")
+		f, err := os.OpenFile(path, os.O_CREATE|os.O_RDWR|os.O_TRUNC, 0o644)
+		if err != nil {
+			return "", err
+		}
+		defer f.Close()
+		return path, b.Seal(context.Background(), f)
+	}
+	cid36 := func(c interface{ Bytes() []byte }) (v [36]byte, err error) {
+		cb := c.Bytes()
+		if len(cb) != 36 {
+			return v, fmt.Errorf("CID of %d bytes", len(cb))
+		}
+		copy(v[:], cb)
+		return v, nil
+	}
+	slotToCid, err = build("slot-to-cid", len(t.Blocks), func(b *legacyindex36.Builder) error {
+		for _, bl := range t.Blocks {
+			v, err := cid36(t.Objects[bl.Obj].Cid)
+			if err != nil {
+				return err
+			}
+			if err := b.Insert(indexes.Uint64tob(bl.Slot), v); err != nil {
+				return err
+			}
+		}
+		return nil
+	})
+	if err != nil {
+		return "", "", err
+	}
+	sigToCid, err = build("sig-to-cid", len(t.Txs), func(b *legacyindex36.Builder) error {
+		for _, tx := range t.Txs {
+			v, err := cid36(t.Objects[tx.Obj].Cid)
+			if err != nil {
+				return err
+			}
+			if err := b.Insert(tx.Sig[:], v); err != nil {
+				return err
+			}
+		}
+		return nil
+	})
+	return slotToCid, sigToCid, err
 }
 
 // writeLegacyConfig builds the two legacy-format files and writes a config that serves the epoch through
